@@ -12,7 +12,9 @@
 //! the wrapper stores (Zstd, Huffman framing, Rans/Dictionary) and CachedBlobStore over any modelled inner
 //! store, stacks of them, DictZipBlobStore's bookkeeping (`XHist` / `XPlain` / `XPlainOpen` cases: the whole
 //! history on the whole stack; opaque codecs enter as the table of (input, output) pairs seen between two
-//! layers).  Everything else is S-only (oracle).
+//! layers), BatchZipOffsetBlobStoreBuilder (`XBatch`: the add_record / flush_batch calls made, ids, byte-exact image or
+//! refusal), NestLoudsTrieBlobStoreBuilder (`XNltb`: entries with repeated keys, reads by key and by id of the finished
+//! store), MemoryBlobStore::from_data + history (`XFromData`).  Everything else is S-only (oracle).
 use crate::util::*;
 #[path = "c03_b.rs"]
 mod b;
